@@ -94,7 +94,7 @@ theorem lone_sample {cfg : Cfg} {req : Req} (hs : req.space.valid = true) (hu : 
     | .error e => (lone cfg (2 * fs.length + 1) (.getSample req now pick fs ss rs acc) db).1 = .finished (.raised e) := by
   induction fs generalizing ss rs db acc with
   | nil =>
-    simp only [sampleRounds, List.length_nil, Nat.mul_zero, Nat.zero_add, lone, pstepT,
+    simp only [sampleRounds, List.length_nil, Nat.mul_zero, lone, pstepT,
       pstep_getSample_nil (wf_getSample_mk hs hu henum now pick [] ss rs acc), totalOf, sampleFin]
   | cons f fs ih =>
     rw [show 2 * (f :: fs).length + 1 = (2 * fs.length + 2) + 1 by simp; omega, lone_succ]
